@@ -55,6 +55,11 @@ func (f *Prog) Call(s *slip.Scope, args slip.List, depth int) slip.Object {
 	d2 := depth + 1
 	processBinding(s, ns, args[0], d2)
 	for i := 1; i < len(args); i++ {
+		switch args[i].(type) {
+		case slip.List, slip.Funky:
+		default:
+			continue // a tag
+		}
 		switch tr := slip.EvalArg(ns, args, i, d2).(type) {
 		case *slip.ReturnResult:
 			if tr.Tag == nil {
@@ -64,10 +69,8 @@ func (f *Prog) Call(s *slip.Scope, args slip.List, depth int) slip.Object {
 				return tr
 			}
 		case *GoTo:
-			for i++; i < len(args); i++ {
-				if args[i] == tr.Tag {
-					break
-				}
+			if i = tr.Find(s, args, 1, depth); i < 0 {
+				return tr
 			}
 		}
 	}
